@@ -352,21 +352,47 @@ pub fn vf_mutator_at(m: &VfMutators, i: usize) -> (r: &VfMutator)
 impl VfMutator {
     /// the unsafe_mode the mutator was created with (MutatorKind::create(unsafe_mode))
     pub uninterp spec fn unsafe_mode(&self) -> bool;
+    // One mutator call is a deterministic function of (mutator, value, entropy state, rate): what it returns and the
+    // entropy state it leaves behind.  Uninterpreted: the dispatchers of src/generator/mutation.rs are specified
+    // against these functions ("the first registered mutator that fires decides the value", C15), nothing is
+    // claimed here about WHAT a mutator returns (that is C16: unit mutv and the Kani harnesses u8_*).
+    pub uninterp spec fn sp_int(&self, v: i32, s: GenerationSource, rate: f64) -> Option<i32>;
+    pub uninterp spec fn sp_int_src(&self, v: i32, s: GenerationSource, rate: f64) -> GenerationSource;
+    pub uninterp spec fn sp_float(&self, v: f64, s: GenerationSource, rate: f64) -> Option<f64>;
+    pub uninterp spec fn sp_float_src(&self, v: f64, s: GenerationSource, rate: f64) -> GenerationSource;
+    pub uninterp spec fn sp_memo(&self, v: usize, s: GenerationSource, rate: f64) -> Option<usize>;
+    pub uninterp spec fn sp_memo_src(&self, v: usize, s: GenerationSource, rate: f64) -> GenerationSource;
+    pub uninterp spec fn sp_str(&self, v: Seq<char>, s: GenerationSource, rate: f64) -> Option<Seq<char>>;
+    pub uninterp spec fn sp_str_src(&self, v: Seq<char>, s: GenerationSource, rate: f64) -> GenerationSource;
+    pub uninterp spec fn sp_bytes(&self, v: Seq<u8>, s: GenerationSource, rate: f64) -> Option<Seq<u8>>;
+    pub uninterp spec fn sp_bytes_src(&self, v: Seq<u8>, s: GenerationSource, rate: f64) -> GenerationSource;
     #[verifier::external_body]
-    pub fn mutate_int(&self, value: i32, source: &mut GenerationSource, rate: f64) -> (r: Option<i32>) { unimplemented!() }
+    pub fn mutate_int(&self, value: i32, source: &mut GenerationSource, rate: f64) -> (r: Option<i32>)
+        ensures r == self.sp_int(value, *old(source), rate), *final(source) == self.sp_int_src(value, *old(source), rate)
+    { unimplemented!() }
     #[verifier::external_body]
     pub fn mutate_long(&self, value: i64, source: &mut GenerationSource, rate: f64) -> (r: Option<i64>) { unimplemented!() }
     #[verifier::external_body]
-    pub fn mutate_float(&self, value: f64, source: &mut GenerationSource, rate: f64) -> (r: Option<f64>) { unimplemented!() }
+    pub fn mutate_float(&self, value: f64, source: &mut GenerationSource, rate: f64) -> (r: Option<f64>)
+        ensures r == self.sp_float(value, *old(source), rate), *final(source) == self.sp_float_src(value, *old(source), rate)
+    { unimplemented!() }
     #[verifier::external_body]
-    pub fn mutate_memo_index(&self, index: usize, source: &mut GenerationSource, rate: f64) -> (r: Option<usize>) { unimplemented!() }
+    pub fn mutate_memo_index(&self, index: usize, source: &mut GenerationSource, rate: f64) -> (r: Option<usize>)
+        ensures r == self.sp_memo(index, *old(source), rate), *final(source) == self.sp_memo_src(index, *old(source), rate)
+    { unimplemented!() }
     #[verifier::external_body]
     pub fn mutate_string(&self, value: String, source: &mut GenerationSource, rate: f64) -> (r: Option<String>)
-        ensures r is Some ==> r->Some_0@.len() <= 2 * value@.len() + 9 && (printable(value@) ==> printable(r->Some_0@))
+        ensures r is Some ==> r->Some_0@.len() <= 2 * value@.len() + 9 && (printable(value@) ==> printable(r->Some_0@)),
+            (r is Some) == (self.sp_str(value@, *old(source), rate) is Some),
+            r is Some ==> r->Some_0@ == self.sp_str(value@, *old(source), rate)->Some_0,
+            *final(source) == self.sp_str_src(value@, *old(source), rate),
     { unimplemented!() }
     #[verifier::external_body]
     pub fn mutate_bytes(&self, value: Vec<u8>, source: &mut GenerationSource, rate: f64) -> (r: Option<Vec<u8>>)
-        ensures r is Some ==> r->Some_0@.len() <= 2 * value@.len() + 9
+        ensures r is Some ==> r->Some_0@.len() <= 2 * value@.len() + 9,
+            (r is Some) == (self.sp_bytes(value@, *old(source), rate) is Some),
+            r is Some ==> r->Some_0@ == self.sp_bytes(value@, *old(source), rate)->Some_0,
+            *final(source) == self.sp_bytes_src(value@, *old(source), rate),
     { unimplemented!() }
     /// only TypeConfusionMutator overrides post_process (contract proved in unit mutv); the default body returns false
     #[verifier::external_body]
